@@ -767,7 +767,7 @@ class C05(PropBase):
         g = Gen(rng)
         cases = []
         dist = {"adversarial": 0, "wellformed": 0, "by_arch": {}}
-        n_adv = 22000 if tier == "quick" else 300000
+        n_adv = 22000 if tier == "quick" else 200000
         for _ in range(n_adv):
             c = g.case()
             cases.append(c)
